@@ -905,6 +905,8 @@ class Cols:
         if isinstance(key, tuple) and len(key) == 2 and isinstance(key[1], int):
             rows, col = key
             if isinstance(rows, slice) and rows == slice(None, None, None):
+                if type(val).__name__ == "IndexVal":
+                    val = val.arr()
                 if isinstance(val, (Arr, Series, MultiArr)):
                     self.cols[col] = val.arr() if isinstance(val, Series) else val
                 else:
